@@ -35,6 +35,12 @@ var c08Corpus = []string{
 	"{{ a.len() ? 'y' : 'n' }}",
 	"@each(v in a)@if(v){{ v }}@end@end",
 	"{{ x = 1 + 2; x }}{{ y = x }}",
+	"@use(\"~main\")",
+	"a@reserve(\"x\")b",
+	"@insert(\"x\", 1 + 2)",
+	"@each(v in a)@breakIf(v == 2){{ v }}@continueIf(v)@end",
+	"@dump(a, [1])",
+	"@component(\"c\", {a: 1})",
 }
 
 // refIncomplete: the template text p ends inside an open {{ }}, directive argument list, string or comment, or
@@ -71,7 +77,8 @@ func refIncomplete(p string) bool {
 		}
 		if p[i] == '@' {
 			kw := ""
-			for _, k := range []string{"@elseif", "@else", "@end", "@if", "@each", "@for"} {
+			for _, k := range []string{"@elseif", "@else", "@end", "@if", "@each", "@for", "@use", "@reserve", "@insert",
+				"@breakIf", "@continueIf", "@component", "@dump"} {
 				if refContainsAt(p, k, i) {
 					kw = k
 					break
@@ -85,7 +92,7 @@ func refIncomplete(p string) bool {
 			}
 			if kw != "" {
 				i += len(kw)
-				if kw == "@if" || kw == "@each" || kw == "@for" || kw == "@elseif" {
+				if kw != "@else" && kw != "@end" {
 					if i >= len(p) || p[i] != '(' {
 						return true // argument list not yet written
 					}
